@@ -29,6 +29,7 @@ OTHERWISE, ARISING FROM, OUT OF OR IN CONNECTION WITH THE SOFTWARE OR THE USE OR
 
 from __future__ import annotations
 
+import itertools
 import string
 from typing import TYPE_CHECKING
 
@@ -199,16 +200,16 @@ def guess_keys(text: bytes, most_char: int, known_key_length: int) -> list[bytes
     return all_keys(key_possible_bytes)
 
 
+MAX_KEYS = 4096
+
+
 def all_keys(key_possible_bytes: list[list[int]], key_part: tuple[int, ...] = (), offset: int = 0) -> list[bytes]:
     """
-    Produce all combinations of possible key chars
+    Produce the combinations of possible key chars, in order, at most MAX_KEYS of them
+    (the number of combinations is exponential in the key length when many bytes tie)
     """
-    keys = []
-    if offset >= len(key_possible_bytes):
-        return [bytes(key_part)]
-    for c in key_possible_bytes[offset]:
-        keys += all_keys(key_possible_bytes, (*key_part, c), offset + 1)
-    return keys
+    combinations = itertools.product(*key_possible_bytes[offset:])
+    return [bytes((*key_part, *combination)) for combination in itertools.islice(combinations, MAX_KEYS)]
 
 
 # -----------------------------------------------------------------------------
